@@ -512,7 +512,10 @@ func enumSweep(c *h.Ctx) {
 		call("flv.VideoFrameTrait", v, func() { _ = flv.VideoFrameTrait(u).String() })
 		call("avc.NALUType", v, func() { _ = avc.NALUType(u).String() })
 		call("avc.AVCLevel", v, func() { _ = avc.AVCLevel(u).String() })
-		call("ocsp.ResponseStatus", v, func() { _ = ocsp.ResponseStatus(v).String(); _ = ocsp.ResponseError{Status: ocsp.ResponseStatus(v)}.Error() })
+		call("ocsp.ResponseStatus", v, func() {
+			_ = ocsp.ResponseStatus(v).String()
+			_ = ocsp.ResponseError{Status: ocsp.ResponseStatus(v)}.Error()
+		})
 		c.Case("enum/uint8", fmt.Sprint("uint8 ", v), true)
 	}
 	for v := 0; v < 65536; v++ {
